@@ -635,11 +635,20 @@ class Harness:
 
     def finish(self):
         """cleanup and make sure no simulator thread outlives the case."""
-        try:
-            self.sim.cleanup()
-        except Exception:
-            pass
         leaked = []
+
+        def _cleanup():
+            try:
+                self.sim.cleanup()
+            except Exception:
+                pass
+        # (in a helper thread: a cleanup() that does not come back - pydsol waits at most a second for its run
+        # thread - must not hang the check; it is reported like a thread that outlives the case)
+        th = threading.Thread(target=_cleanup, name="verif-cleanup", daemon=True)
+        th.start()
+        th.join(8.0)
+        if th.is_alive():
+            leaked.append("cleanup() did not return within 8 s")
         for w in self.workers_all():
             w.join(2.0)
             if w.is_alive():
